@@ -172,6 +172,8 @@ class Interp:
             return self.ev(t[1])
         if k == "zero":
             return 0
+        if k == "ctor" and len(t) >= 5 and t[4] is True and len(t[3]) == 1:
+            return self.ev(t[3][0])       # an elidable copy (C++14 spelling of initialisation from a prvalue)
         if k in ("call", "mcall", "opcall", "ctor", "icall"):
             return self.oracle("call", t, self)
         if k == "member":
